@@ -590,9 +590,14 @@ SlurpOK(rw, u0, opts) ==
     /\ LET d == Denote(rw.term.func.args[1]) IN
        /\ DOMAIN d = {"slurp", "slurp_args", "orig", "rewrite"}
        /\ d.slurp = sp.name
-       /\ Len(d.slurp_args) = Len(sp.args) /\ \A i \in 1 .. Len(sp.args) : Norm(d.slurp_args[i]) = Norm(sp.args[i])
+       \* the rewritten program and the arguments are evaluated on their own by the slurp function: each carries the user's
+       \* directives (module, import, include) - without them a function that comes from an include is not defined there
+       /\ Len(d.slurp_args) = Len(sp.args)
+       /\ \A i \in 1 .. Len(sp.args) : /\ Norm(NoDirectives(d.slurp_args[i])) = Norm(sp.args[i])
+                                         /\ Directives(d.slurp_args[i]) = Directives(u0)
        /\ Norm(d.orig) = Norm(sp.orig)
-       /\ Norm(d.rewrite) = Norm(sp.rewrite)
+       /\ Norm(NoDirectives(d.rewrite)) = Norm(sp.rewrite)
+       /\ Directives(d.rewrite) = Directives(u0)
 
 (* the option objects the real callers build (init.jq _cli_eval/_main, repl.jq _repl_eval) *)
 CliSlurps == [help |-> "_help_slurp", repl |-> "_cli_repl_error", slurp |-> "_cli_slurp_error"]
